@@ -105,8 +105,7 @@ NOT_REACHED = "contracts for this property are not yet discharged in this build 
 ALL = ["C%02d" % i for i in range(1, 21)]
 
 def main():
-    commits = subprocess.run(["git", "-C", "/repo", "log", "--format=%H", "--", "contracts_verif.go",
-                              "parser/contracts_verif.go", "ast/contracts_verif.go", "file/contracts_verif.go"],
+    commits = subprocess.run(["git", "-C", "/repo", "log", "--format=%H", "--", ":(glob)**/contracts_verif*.go"],
                              capture_output=True, text=True).stdout.split()
     checks = []
     for pid in ALL:
